@@ -481,7 +481,7 @@ func seqOp(elem string, objs *[]*seqObj, p []string) (ans string) {
 		if !ok {
 			return "bad-val"
 		}
-		r, err := collThread().CallMethodByName(value.ToSymbol("remove"), o.t.ToValue(), v)
+		r, err := collThread().CallMethodByName(value.ToSymbol("remove"), o.list().ToValue(), v)
 		if !err.IsUndefined() {
 			return seqErr(err)
 		}
